@@ -1,11 +1,14 @@
 package prop
 
 import (
+	"bufio"
 	"bytes"
 	"encoding/binary"
 	"fmt"
 	"hash/crc32"
+	"io"
 	"math/rand"
+	"strings"
 
 	"github.com/biogo/hts/cram"
 	"github.com/biogo/hts/cram/encoding/itf8"
@@ -21,7 +24,7 @@ func init() {
 		Level: "exploration",
 		Rule: "each int32/int64 value is one evaluation: Encode into a canary-filled buffer, compare count with Len and with the CRAM-spec oracle, compare bytes with the oracle, Decode back (also with one byte missing and with trailing bytes). " +
 			"quick: stratified values (length-class boundaries ±2, all 1- and 2-bit patterns and their complements, seeded random per class); thorough: every int32 (2^32 values in 256 range cases) plus the stratified int64 set. " +
-			"distinct_nontrivial counts distinct values in range/stratified cases (they partition or de-duplicate their value lists); random-sample cases count once each. Decode totality: 256 first bytes × lengths 0..9 × 3 fills. cram stream cases: containers built by the independent encoder must be consumed exactly.",
+			"distinct_nontrivial counts distinct values in range/stratified cases (they partition or de-duplicate their value lists); random-sample cases count once each. Decode totality: 256 first bytes × lengths 0..9 × 3 fills. cram stream cases: containers built by the independent encoder (header fields of random bit widths, so every ITF-8/LTF-8 length class) reach cram.NewReader whole or through sources that return 1 byte, 1-11 bytes, random short reads, the last bytes together with io.EOF, or through a 16-byte bufio.Reader; every container's decoded header fields must equal the encoded ones, all blocks must be delivered, and a whole source must be consumed exactly.",
 		Floor:       map[string]int{"quick": 5000, "thorough": 1 << 32},
 		Plan:        c20Plan,
 		Run:         c20Run,
@@ -37,9 +40,9 @@ func c20Plan(seed int64, tier string) []core.Case {
 	cs = append(cs, core.Case{Kind: "itf8-strat", Seed: core.SubSeed(seed, "i8s")})
 	cs = append(cs, core.Case{Kind: "ltf8-strat", Seed: core.SubSeed(seed, "l8s")})
 	cs = append(cs, core.Case{Kind: "decode-total", Seed: core.SubSeed(seed, "dt")})
-	nr, ns := 8, 12
+	nr, ns := 8, 120
 	if tier == "thorough" {
-		nr, ns = 32, 200
+		nr, ns = 32, 2000
 		for i := int64(0); i < 256; i++ {
 			cs = append(cs, core.Case{Kind: "itf8-range", P: map[string]int64{"lo": i << 24, "hi": (i + 1) << 24}})
 		}
@@ -331,7 +334,10 @@ func c20Cram(r *core.Result, rng *rand.Rand) {
 	f.Write([]byte{3, 0})
 	f.Write(make([]byte, 20))
 	nc := 1 + rng.Intn(4)
-	type want struct{ blocks int }
+	type want struct {
+		blocks int
+		hdr    string // the header fields as fmt prints them
+	}
 	var wants []want
 	randI := func() int32 {
 		w := uint(rng.Intn(32) + 1)
@@ -373,27 +379,50 @@ func c20Cram(r *core.Result, rng *rand.Rand) {
 		var l4 [4]byte
 		binary.LittleEndian.PutUint32(l4[:], uint32(blocks.Len()))
 		h.Write(l4[:])
-		h.Write(i8(randI())) // refID
-		h.Write(i8(randI())) // start
-		h.Write(i8(randI())) // span
-		h.Write(i8(randI())) // nRec
-		h.Write(oracle.LTF8Encode(randL()))
-		h.Write(oracle.LTF8Encode(randL()))
+		f4 := []int32{randI(), randI(), randI(), randI()} // refID, start, span, nRec
+		for _, v := range f4 {
+			h.Write(i8(v))
+		}
+		rc, bs := randL(), randL()
+		h.Write(oracle.LTF8Encode(rc))
+		h.Write(oracle.LTF8Encode(bs))
 		h.Write(i8(int32(nb)))
 		nl := rng.Intn(5)
 		h.Write(i8(int32(nl)))
+		lm := make([]int32, nl)
 		for k := 0; k < nl; k++ {
-			h.Write(i8(randI()))
+			lm[k] = randI()
+			h.Write(i8(lm[k]))
 		}
+		hdr := fmt.Sprintf("refID:%d start:%d span:%d nRec:%d recCount:%d bases:%d blocks:%d landmarks:%v", f4[0], f4[1], f4[2], f4[3], rc, bs, nb, lm)
 		var crc [4]byte
 		binary.LittleEndian.PutUint32(crc[:], crc32.ChecksumIEEE(h.Bytes()))
 		h.Write(crc[:])
 		f.Write(h.Bytes())
 		f.Write(blocks.Bytes())
-		wants = append(wants, want{nb})
+		wants = append(wants, want{nb, hdr})
 	}
 	total := f.Len()
-	src := bytes.NewReader(f.Bytes())
+	whole := bytes.NewReader(f.Bytes())
+	// The stream reaches the reader whole, or through a source that returns
+	// short reads (1-11 bytes, 1 byte, random lengths) or its last bytes
+	// together with io.EOF: the announced remainder of a multi-byte value must
+	// be fetched completely whatever the source does.
+	var src io.Reader = whole
+	sk := rng.Intn(6)
+	switch sk {
+	case 1:
+		src = &dribble{b: f.Bytes(), x: rng.Uint64()}
+	case 2:
+		src = iotest1{whole}
+	case 3:
+		src = wrapSource(f.Bytes(), 2, rng)
+	case 4:
+		src = &eagerEOF{b: f.Bytes(), max: 1 + rng.Intn(7)}
+	case 5:
+		src = bufio.NewReaderSize(whole, 16)
+	}
+	r.Count(fmt.Sprintf("cram_source_kind_%d", sk), 1)
 	pv, st := core.Recover(func() {
 		cr, err := cram.NewReader(src)
 		if err != nil {
@@ -403,6 +432,10 @@ func c20Cram(r *core.Result, rng *rand.Rand) {
 		ci := 0
 		for cr.Next() {
 			ct := cr.Container()
+			// the decoded header fields (unexported; fmt prints them)
+			if got := fmt.Sprintf("%+v", *ct); ci < len(wants) && !strings.Contains(got, wants[ci].hdr+" ") {
+				r.Violate("cram|header-values", "container %d read through source kind %d: decoded %s, encoded %s", ci, sk, got, wants[ci].hdr)
+			}
 			nb := 0
 			for ct.Next() {
 				if _, err := ct.Block().Value(); err != nil {
@@ -424,13 +457,23 @@ func c20Cram(r *core.Result, rng *rand.Rand) {
 		if ci != len(wants) {
 			r.Violate("cram|container-count", "read %d containers, built %d", ci, len(wants))
 		}
-		if src.Len() != 0 {
-			r.Violate("cram|consumed", "%d of %d bytes left unread", src.Len(), total)
+		if sk == 0 && whole.Len() != 0 {
+			r.Violate("cram|consumed", "%d of %d bytes left unread", whole.Len(), total)
 		}
 	})
 	if pv != nil {
 		r.Violate("panic|cram-stream|"+core.TopLibFrame(st), "cram reader panicked on a spec-built stream: %v", pv)
 	}
+}
+
+// iotest1 returns one byte per Read.
+type iotest1 struct{ r io.Reader }
+
+func (o iotest1) Read(p []byte) (int, error) {
+	if len(p) == 0 {
+		return 0, nil
+	}
+	return o.r.Read(p[:1])
 }
 
 func putCRC(dst, data []byte) { binary.LittleEndian.PutUint32(dst, crc32.ChecksumIEEE(data)) }
